@@ -33,6 +33,10 @@ def rand_op(rnd, n, kind):
         m = -1j * t * (h - 0.5j * (g.mH @ g) / n)
     else:
         m = t * torch.randn(n, n, dtype=dt)
+    if kind != "general" and rnd.random() < 0.35:
+        # a large energy offset (detuned / interacting Rydberg levels): -i t (H + E0 1); the identity part only
+        # rotates the phase of exp(A)v but enters the norm of A
+        m = m - 1j * t * rnd.choice([10.0, 40.0, 150.0]) * torch.eye(n, dtype=dt)
     if rnd.random() < 0.3 and n >= 2:      # invariant subspace -> happy breakdown
         k = rnd.randint(1, n - 1)
         m[k:, :k] = 0
